@@ -375,27 +375,53 @@ theorem crb_formula {nv : Nat} (Finv : Mat K nv nv) (N : K) : crb Finv N = Finv.
 
 end score
 
-/-! ## defects of the unchanged tree mirrored by the model (negation witnesses) -/
+/-! ## validation of the helpers (repaired code) -/
 
-/-- `matrix_util.calc_fisher_matrix_total` sizes its accumulator by the number of *outcomes*:
-two outcomes, three variables ⇒ numpy broadcast error instead of the 3×3 total Fisher matrix. -/
-theorem fisher_total_size_fails :
-    (fisherTotal (K := Rat) [[1/2, 1/2]] [[[1, 2, 3], [-1, -2, -3]]] [1] (1/100000000)).toOption = none
-      ∧ (fisher (K := Rat) [1/2, 1/2] [[1, 2, 3], [-1, -2, -3]] (1/100000000)).toOption
-          = some (3, [[4, 8, 12], [8, 16, 24], [12, 24, 36]]) := by
+/-- C19 (`calc_fisher_matrix_total`, size): a successful call returns a square matrix whose size is the
+number of *variables* (length of the first gradient vector), and the three argument lists have equal length. -/
+theorem fisher_total_size (pss : List (List Rat)) (gradss : List (List (List Rat))) (ws : List Rat) (eps : Rat)
+    (n : Nat) (M : List (List Rat)) (h : fisherTotal pss gradss ws eps = .ok (n, M)) :
+    (∃ g00 g0r gr, gradss = (g00 :: g0r) :: gr ∧ n = g00.length) ∧
+      pss.length = gradss.length ∧ pss.length = ws.length := by
+  unfold fisherTotal at h
+  split at h
+  · cases h
+  · rename_i h1
+    split at h
+    · cases h
+    · rename_i h2
+      split at h
+      · cases h
+      · split at h
+        · cases h
+        · cases h
+        · rename_i g00 g0r gr
+          simp only [] at h
+          split at h
+          · injection h with h
+            injection h with hn hM
+            exact ⟨⟨g00, g0r, gr, rfl, hn.symm⟩, by simpa using h1, by simpa using h2⟩
+          · cases h
+
+/-- C19 (`calc_direct_sum`, squareness): a block is accepted exactly when it is square. -/
+theorem direct_sum_accepts_iff_square {K : Type} (k l : Nat) (B : Mat K k l) :
+    (∃ b, dsCheckOne (⟨k, l, B⟩ : RBlock K) = .ok b) ↔ l = k := by
+  unfold dsCheckOne
+  by_cases h : l = k
+  · simp [h]
+  · simp [h]
+
+-- two outcomes / three variables and two outcomes / one variable now give 3×3 and 1×1 matrices
+example : (fisherTotal (K := Rat) [[1/2, 1/2]] [[[1, 2, 3], [-1, -2, -3]]] [1] (1/100000000)).toOption
+    = some (3, [[4, 8, 12], [8, 16, 24], [12, 24, 36]]) := by
   decide +kernel
-
-/-- …and two outcomes, one variable ⇒ a 2×2 matrix (the 1×1 Fisher information broadcast) instead of 1×1. -/
-theorem fisher_total_shape_fails :
-    (fisherTotal (K := Rat) [[1/2, 1/2]] [[[1], [-1]]] [1] (1/100000000)).toOption
-      = some (2, [[4, 4], [4, 4]]) := by
+example : (fisherTotal (K := Rat) [[1/2, 1/2]] [[[1], [-1]]] [1] (1/100000000)).toOption = some (1, [[4]]) := by
   decide +kernel
-
-/-- `calc_direct_sum` accepts a non-square `2×1` block (its squareness test compares `shape[0]` with
-itself) and broadcasts the column. -/
-theorem direct_sum_nonsquare_accepted_fails :
-    ((dsCheck (K := Rat) [⟨2, 1, Mat.ofFn fun i _ => (i.val : Rat) + 1⟩]).toOption.map
-        fun bs => matToList (directSum bs)) = some [1, 1, 2, 2] := by
+-- a weights list of the wrong length is rejected
+example : (fisherTotal (K := Rat) [[1/2, 1/2]] [[[1], [-1]]] [1, 1] (1/100000000)).toOption = none := by
+  decide +kernel
+-- a 2×1 block is rejected
+example : (dsCheck (K := Rat) [⟨2, 1, Mat.ofFn fun i _ => (i.val : Rat) + 1⟩]).toOption.isNone = true := by
   decide +kernel
 
 -- non-vacuity: concrete instances of the hypotheses
